@@ -96,3 +96,39 @@ func vparseUnparse(s bscript.Script) {
 	}
 	vreach("parse-ok")
 }
+
+// C13-P2c: every push form at every length: one push of n bytes (n = 1..75 direct, and 75/76/255/256
+// through OP_PUSHDATA1/2) followed by one opcode byte: the interpreter's parser yields exactly two
+// instructions, the first carrying the n bytes, agrees with bscript.DecodeParts, and unparses to the
+// same bytes. The length is concretised (one path per length); the contents are symbolic.
+func VH_C13_ParsePush() {
+	var s bscript.Script
+	var n int
+	switch vnondetLen("form", 0, 2) {
+	case 0:
+		n = int(vconcU64(uint64(vnondetRange("direct-len", 1, 75))))
+		s = append(s, byte(n))
+	case 1:
+		n = []int{75, 76, 255}[vnondetLen("pd1-len", 0, 2)]
+		s = append(s, bscript.OpPUSHDATA1, byte(n))
+	case 2:
+		n = []int{255, 256}[vnondetLen("pd2-len", 0, 1)]
+		s = append(s, bscript.OpPUSHDATA2, byte(n), byte(n>>8))
+	}
+	data := vnondetBytes("data", n, n)
+	s = append(s, data...)
+	s = append(s, bscript.OpDUP)
+	orig := vcopy(s)
+	p := &DefaultOpcodeParser{}
+	ps, err := p.Parse(&s)
+	vassert(err == nil, "push forms: a well-formed push parses")
+	if err != nil {
+		return
+	}
+	vassert(len(ps) == 2 && vbytesEq(ps[0].Data, data) && ps[1].op.val == bscript.OpDUP, "push forms: the parser takes exactly the pushed bytes")
+	parts, derr := bscript.DecodeParts(s)
+	vassert(derr == nil && len(parts) == 2 && vbytesEq(parts[0], data), "push forms: DecodeParts takes exactly the pushed bytes")
+	us, err := p.Unparse(ps)
+	vassert(err == nil && us != nil && vbytesEq(*us, orig), "push forms: Unparse(Parse(s)) == s")
+	vreach("parsepush-done")
+}
